@@ -599,15 +599,17 @@ macro_rules! typed_comparision {
                 None => Ok(Value::Boolean(true)),
                 Some(first) => {
                     let mut last_num = first.$expect_type()?;
+                    // no early return: every operand has to be of the expected type
+                    let mut result = true;
                     for current in iter {
                         let current_num = current.$expect_type()?;
                         #[allow(clippy::neg_cmp_op_on_partial_ord)]
                         if !(last_num $operator current_num) {
-                            return Ok(Value::Boolean(false));
+                            result = false;
                         }
                         last_num = current_num;
                     }
-                    Ok(Value::Boolean(true))
+                    Ok(Value::Boolean(result))
                 }
 
             }
